@@ -45,7 +45,7 @@ type Cfg struct {
 	// rule is replaced by the same rule with a long one (or cleared and loaded again). If the node is still ejected
 	// after the load, it is still ejected when the interval of the REPLACED rule has passed.
 	// [interval before s, interval after s, a request between the load and the old deadline (0/1), how: 0 LoadRules, 1 LoadRuleOfResource, 2 ClearRules+LoadRules,
-	// 3 ClearRules, then the very same rule object is loaded again and the node fails again shortly before the old timer is due, 4 the same with ClearRuleOfResource, then LoadRules, 5 the recycler consumes its queue only after ClearRules (timer armed while there is no rule), then LoadRules]
+	// 3 ClearRules, then the very same rule object is loaded again and the node fails again shortly before the old timer is due, 4 the same with ClearRuleOfResource, then LoadRules, 5 the recycler consumes its queue only after ClearRules (timer armed while there is no rule), then LoadRules, 6 / 7 a rule with ACTIVE recovery is replaced by a passive one / cleared while its check function is probing an ejected node]
 	Recycle []int64 `json:"recycle,omitempty"`
 }
 
@@ -99,7 +99,7 @@ func (P) Gen(rng *sim.Rng, tier string) *harness.Case {
 		cfg.Verdicts = []int64{int64(rng.Range(1, int(d)-1)), d + int64(rng.Range(0, 500)), int64(rng.Range(2, 10)), d, int64(rng.Intn(2))}
 	}
 	if len(cfg.Budget) == 0 && len(cfg.Verdicts) == 0 && rng.Chance(0.02) {
-		cfg.Recycle = []int64{int64(rng.Range(1, 5)), int64([]int{30, 600, 3600}[rng.Intn(3)]), int64(rng.Intn(2)), int64(rng.Intn(6))}
+		cfg.Recycle = []int64{int64(rng.Range(1, 5)), int64([]int{30, 600, 3600}[rng.Intn(3)]), int64(rng.Intn(2)), int64(rng.Intn(8))}
 	}
 	n := rng.Range(6, 24)
 	for i := 0; i < n; i++ {
@@ -1069,7 +1069,7 @@ func execVerdicts(cfg *Cfg, o *harness.Outcome, env *harness.Env) {
 // execRecycle: see Cfg.Recycle.
 func execRecycle(cfg *Cfg, o *harness.Outcome, env *harness.Env) {
 	a, b, between, how := cfg.Recycle[0], cfg.Recycle[1], cfg.Recycle[2] == 1, cfg.Recycle[3]
-	if a <= 0 || a > 10 || b <= a+1 || b > 100000 || how < 0 || how > 5 {
+	if a <= 0 || a > 10 || b <= a+1 || b > 100000 || how < 0 || how > 7 {
 		return
 	}
 	const resName, bad, good = "res-0", "10.0.0.1:80", "10.0.0.2:80"
@@ -1087,6 +1087,66 @@ func execRecycle(cfg *Cfg, o *harness.Outcome, env *harness.Env) {
 		// ejected for an hour after one error; every node may be ejected; passive recovery only
 		return &outlier.Rule{Rule: &cb.Rule{Id: "recycle", Resource: resName, Strategy: cb.ErrorCount, RetryTimeoutMs: 3600000, MinRequestAmount: 1, StatIntervalMs: 10000, Threshold: 1},
 			MaxEjectionPercent: 1, RecycleIntervalS: uint32(recycleS)}
+	}
+	if how >= 6 {
+		// The other worker of the module: a rule with ACTIVE recovery probes an ejected node with its check function
+		// once per recovery interval, for ever while the node does not answer. The rule is replaced by a passive one
+		// (6), or cleared (7): the check function of the rule that is gone is not called any more.
+		calls := 0
+		active := mk(3600)
+		active.EnableActiveRecovery, active.RecoveryIntervalMs, active.MaxRecoveryAttempts = true, 1000, 3
+		active.RecoveryCheckFunc = func(string) bool { calls++; return false }
+		harness.Call(o, "C13.load-panicked", 0, outlier.VerifResetWorkers)
+		defer func() {
+			harness.Call(o, "C13.load-panicked", 0, drain)
+			_ = outlier.ClearRules()
+		}()
+		harness.Call(o, "C13.load-panicked", 0, func() { _, _ = outlier.LoadRules([]*outlier.Rule{active}) })
+		probe := func(addr string, fail bool) (filter []string) {
+			harness.Call(o, "C13.probe-panicked", 0, func() {
+				e, _ := sentinel.Entry(resName, sentinel.WithSlotChain(sc))
+				if e == nil {
+					return
+				}
+				filter = append(filter, e.Context().FilterNodes()...)
+				sentinel.TraceCallee(e, addr)
+				if fail {
+					sentinel.TraceError(e, errors.New("backend failure"))
+				}
+				env.Clock.AdvanceMs(1)
+				e.Exit()
+				drain()
+			})
+			return
+		}
+		probe(good, false)
+		probe(bad, true)
+		probe(bad, true)
+		probe(good, false) // finds the node ejected: handed to the retryer
+		harness.Call(o, "C13.probe-panicked", 0, func() { tq.AdvanceMs(2500, drain) })
+		if o.Failed() || calls == 0 {
+			return
+		}
+		harness.Call(o, "C13.load-panicked", 0, func() {
+			if how == 6 {
+				_, _ = outlier.LoadRules([]*outlier.Rule{mk(3600)})
+			} else {
+				_ = outlier.ClearRules()
+			}
+		})
+		before := calls
+		harness.Call(o, "C13.probe-panicked", 0, func() { tq.AdvanceMs(10000, drain) })
+		if o.Failed() {
+			return
+		}
+		o.SimMs += 12500
+		o.Nontrivial = true
+		o.Probe("outlier_rule_with_active_recovery_replaced_while_it_probes_a_node")
+		if calls != before {
+			o.Fail("C13.replaced-rule-still-decides", 0, "outlier rule with active recovery (RecoveryIntervalMs 1000, a check function that never finds the node healthy): a node was ejected and the rule's check function probed it %d times; the rule was %s; in the 10 s after that load had returned the check function of the rule that is gone was called %d more times",
+				before, map[bool]string{true: "replaced by a rule with passive recovery (LoadRules)", false: "cleared (ClearRules)"}[how == 6], calls-before)
+		}
+		return
 	}
 	load := func(recycleS int64, how int64) {
 		harness.Call(o, "C13.load-panicked", 0, func() {
